@@ -121,6 +121,40 @@ pub fn run(c: &Case, tmp: &std::path::Path) -> Vec<String> {
     let expected: Arc<Vec<Vec<u8>>> = Arc::new(contents.into_iter().map(|(d, _)| d).collect());
     let addrs = Arc::new(addrs);
 
+    if c.po("pool") == Some("rayon") {
+        // the readers are the workers of rayon's global pool (an application reading contents from par_iter / broadcast):
+        // every worker reads whole contents at the same moment; a reader that waits must never keep a decoder from running
+        let container = match jbk::reader::Container::new(&main) {
+            Ok(c) => c,
+            Err(e) => {
+                out.push(format!("{} open {}", id, err_class(&e)));
+                return out;
+            }
+        };
+        let n = expected.len();
+        let res: Vec<(usize, usize, usize)> = rayon::broadcast(|ctx| {
+            let (mut ok, mut bad, mut errs) = (0usize, 0usize, 0usize);
+            for r in 0..reads {
+                let i = (ctx.index() + r * 7) % n;
+                match container.get_bytes(addrs[i]) {
+                    Ok(Some(jbk::reader::MayMissPack::FOUND(Some(region)))) => {
+                        let mut buf = vec![];
+                        match region.stream().read_to_end(&mut buf) {
+                            Ok(_) if buf == expected[i] => ok += 1,
+                            Ok(_) => bad += 1,
+                            Err(_) => errs += 1,
+                        }
+                    }
+                    Ok(_) => bad += 1,
+                    Err(_) => errs += 1,
+                }
+            }
+            (ok, bad, errs)
+        });
+        let (ok, bad, errs) = res.iter().fold((0, 0, 0), |a, x| (a.0 + x.0, a.1 + x.1, a.2 + x.2));
+        out.push(format!("{} reads ok={} bad={} errors={} damaged={} modes=[{},0,0,0,0]", id, ok, bad, errs, damaged as u8, ok + bad + errs));
+        return out;
+    }
     // event log + schedule perturbation
     let log: Arc<Mutex<Vec<(u8, usize, usize, usize, usize)>>> = Arc::new(Mutex::new(Vec::with_capacity(1 << 18)));
     {
